@@ -97,9 +97,11 @@ theorem sortedInv_apply {lt : K × V → K × V → Bool} (sw : StrictWeak lt) {
   cases op with
   | put k v =>
     refine ⟨sorted_putAux sw k v hi.1 ha hsrt, ?_⟩
-    simp only [apply, putAux, reposition]
+    simp only [apply, putAux, valueChanged, reposition]
     split
-    · split <;> simp [patch, ha]
+    · split
+      · exact ha
+      · split <;> simp [patch, ha]
     · exact ha
   | remove k =>
     refine ⟨sorted_removeKey k hsrt, ?_⟩
